@@ -414,6 +414,19 @@ fn mode_c18(ctx: &mut Ctx, _args: &Args, rng: &Rng, shard: (u64, u64)) {
                     round_one(ctx, fmt, m, e, mode, "sweep.all_exponents");
                 }
             }
+            // every single bit below the top one, every "low k bits zero / low k bits one" pattern and every bit next to a
+            // 8/16/32/48-bit word boundary: a slip that needs one particular interior bit (a narrowed mask, a stale word)
+            for i in 0..63u32 {
+                let mut pats = vec![1u64 << 63 | 1u64 << i, u64::MAX << i, 1u64 << 63 | ((1u64 << i) - 1), 1u64 << 63 | 1u64 << i | 1];
+                if i >= 1 {
+                    pats.push(1u64 << 63 | 3u64 << (i - 1));
+                }
+                for m in pats {
+                    for mode in 0..3u8 {
+                        round_one(ctx, fmt, m | 1 << 63, e, mode, "sweep.single_bits");
+                    }
+                }
+            }
             // subnormal shifts: the halfway pattern for this particular shift
             let shift = -e + 1;
             if shift >= 1 && shift <= 64 && e <= -(64 - fmt.mant_bits as i32 - 1) {
